@@ -8,6 +8,23 @@ import (
 
 func replayMore(rp *ev.Replay) *ev.Failure {
 	switch rp.Property + "/" + rp.Test {
+	case "C11/scase", "C11/ucase":
+		return replayShim(rp)
+	case "C12/xcase":
+		var c XCase
+		if err := json.Unmarshal(rp.Case, &c); err != nil {
+			return ev.Failf("C12/replay", "bad case: %v", err)
+		}
+		f, _ := oracleC12(&c)
+		return f
+	case "C18/jcase":
+		var c JCase
+		if err := json.Unmarshal(rp.Case, &c); err != nil {
+			return ev.Failf("C18/replay", "bad case: %v", err)
+		}
+		return oracleC18(&c)
+	case "C18/nilprobe":
+		return jsonNilProbes()
 	case "C16/pkg":
 		return replayPkg(rp.Case)
 	case "C17/rcase":
